@@ -50,8 +50,10 @@ Lemma dM_ext F G D : (forall t, F t = G t) -> dM F D -> dM G D.
 Proof. intros E H i j Hi Hj. eapply is_derive_ext; [ | apply (H i j Hi Hj) ]. intros t; simpl. rewrite E; reflexivity. Qed.
 Lemma dV_ext f g d : (forall t, f t = g t) -> dV f d -> dV g d.
 Proof. intros E H i Hi. eapply is_derive_ext; [ | apply (H i Hi) ]. intros t; simpl. rewrite E; reflexivity. Qed.
-Lemma dM_eq F D D' : dM F D' -> D' = D -> dM F D. Proof. intros; subst; auto. Qed.
-Lemma dV_eq f d d' : dV f d' -> d' = d -> dV f d. Proof. intros; subst; auto. Qed.
+Lemma dM_eq F D D' : dM F D' -> D' = D -> dM F D.
+Proof. intros; subst; auto. Qed.
+Lemma dV_eq f d d' : dV f d' -> d' = d -> dV f d.
+Proof. intros; subst; auto. Qed.
 
 Lemma isd_dot3 (a1 b1 a2 b2 a3 b3 : R -> R) x da1 db1 da2 db2 da3 db3 :
   is_derive a1 x da1 -> is_derive b1 x db1 -> is_derive a2 x da2 -> is_derive b2 x db2 -> is_derive a3 x da3 -> is_derive b3 x db3 ->
